@@ -193,28 +193,35 @@ def history_check(r, sh, kw):
             # the CLI helper on the same object: afterwards names resolve as in the document without that layer
             import copy as _copy
 
-            res0 = S.Resolver(d)
-            for keys, b, chain in res0.probes():
-                resolve_probe(root, keys)
-            try:
-                for b in list(d.wrappers[-1].bindings):
-                    nima.remove_value(src, "@" + b.name)
-            except Exception:  # noqa: BLE001 - refusals are not this property's business
-                docs[i][2] = docs[i][3] = None
-                src = root = None
-                continue
-            d2 = _copy.deepcopy(d)
-            d2.wrappers = d2.wrappers[:-1]
-            docs[i][0], docs[i][1] = d2, src.rebuild()
-            res2 = S.Resolver(d2)
-            lo, hi = (i + 1) * 100000, (i + 2) * 100000
-            for keys, b, chain in res2.probes():
-                got = resolve_probe(src, keys)
-                exp = res2.expected(b, chain)
-                if got[0] == "value" and exp[0] == "value" and got[1] != exp[1]:
-                    fails.append(("wrong-binding-after-layer-removed|history", {"doc": docs[i][1][:300], "keys": list(keys), "got": got[1], "expected": exp[1]}))
-                elif got[0] in ("value", "value-other") and exp[0] in ("unbound", "cycle"):
-                    fails.append((f"resolved-{exp[0]}-name-after-layer-removed|history", {"doc": docs[i][1][:300], "keys": list(keys), "got": list(got)}))
+            for _round in range(r.choice([1, 4, 4])):
+                if not (d.wrappers and all(w.kind == "let" for w in d.wrappers) and all(b.kind in ("int", "ref", "set") for b in d.wrappers[-1].bindings)):
+                    break
+                res0 = S.Resolver(d)
+                if _round == 0 or r.random() < 0.4:
+                    for keys, b, chain in res0.probes():
+                        resolve_probe(root, keys)
+                try:
+                    for b in list(d.wrappers[-1].bindings):
+                        nima.remove_value(src, "@" + b.name)
+                except Exception:  # noqa: BLE001 - refusals are not this property's business
+                    docs[i][2] = docs[i][3] = None
+                    src = root = None
+                    break
+                d2 = _copy.deepcopy(d)
+                d2.wrappers = d2.wrappers[:-1]
+                docs[i][0], docs[i][1] = d2, src.rebuild()
+                d = d2
+                res2 = S.Resolver(d2)
+                lo, hi = (i + 1) * 100000, (i + 2) * 100000
+                if d2.wrappers and _round < 3 and r.random() < 0.5:
+                    continue  # several layers go before anything is looked up again
+                for keys, b, chain in res2.probes():
+                    got = resolve_probe(src, keys)
+                    exp = res2.expected(b, chain)
+                    if got[0] == "value" and exp[0] == "value" and got[1] != exp[1]:
+                        fails.append(("wrong-binding-after-layer-removed|history", {"doc": docs[i][1][:300], "keys": list(keys), "got": got[1], "expected": exp[1]}))
+                    elif got[0] in ("value", "value-other") and exp[0] in ("unbound", "cycle"):
+                        fails.append((f"resolved-{exp[0]}-name-after-layer-removed|history", {"doc": docs[i][1][:300], "keys": list(keys), "got": list(got)}))
         elif act == "drop":
             docs[i][2] = docs[i][3] = None
             src = root = None
@@ -329,7 +336,109 @@ def judge_alias_text(case):
     return fails, cls + "|got:" + got[0]
 
 
+def tworoute_case(r):
+    """One set literal bound in an outer let, reached by two routes (as the environment of `with s;`, as the value of a
+    reference, after a CLI write through the reference, after an earlier mapping read); its inner reference `k = a` is
+    lexically the outer `a`, whatever inner layers re-bind `a` around the place of use."""
+    base = r.randrange(1, 9) * 1000
+    outer, inner1, inner2 = base + 1, base + 2, base + 3
+    rec = r.random() < 0.3
+    lit = ("rec " if rec else "") + "{ k = a; }"
+    route = r.choice(["with", "with", "cli-write", "cli-write", "read-first", "plain"])
+    first = [f"  a = {outer};", f"  s = {lit if route != 'cli-write' else '0'};"]
+    r.shuffle(first)
+    out = ["let"] + first + ["in"]
+    nshadow = r.choice([1, 1, 2])
+    for i in range(nshadow):
+        out += ["let", f"  a = {inner1 + i};"] + ([f"  unrelated{i} = a;"] if r.random() < 0.3 else []) + ["in"]
+    if route == "with" or (route != "cli-write" and r.random() < 0.2):
+        out.append("with s;")
+        has_with = True
+    else:
+        has_with = False
+    body = ["  x = s;"] + (["  y = k;"] if has_with else []) + ["  z = a;"]
+    r.shuffle(body)
+    out += ["{"] + body + ["}"]
+    steps = []
+    if route == "cli-write":
+        steps.append(["set", "x", lit])
+    probes = [["probe", ["x"], "k", outer], ["probe", ["z"], None, inner1 + nshadow - 1]]
+    if has_with:
+        probes.append(["probe", ["y"], None, outer])
+    r.shuffle(probes)
+    if route == "read-first":
+        probes.insert(0, ["probe", ["x"], None, None])
+    steps += probes
+    if r.random() < 0.3:
+        steps += [list(p) for p in probes]
+    return {"kind": "steps", "text": "\n".join(out) + "\n", "steps": steps, "cls": f"tworoute|{route}|{'with' if has_with else 'nowith'}|{'rec' if rec else 'plain'}"}
+
+
+def judge_steps(case):
+    nima.reset_state()
+    fails = []
+    cls = case["cls"]
+    try:
+        src = nima.parse(case["text"])
+    except Exception as e:  # noqa: BLE001
+        return [(f"setup-raises:{type(e).__name__}@{innermost_frame(e)}|{cls}", {"text": case["text"]})], 0
+    answered = 0
+    for i, st_ in enumerate(case["steps"]):
+        if st_[0] == "set":
+            try:
+                text = nima.set_value(src, st_[1], st_[2])
+            except Exception:  # noqa: BLE001
+                return fails, answered
+            if f"s = {st_[2]};" not in text:
+                return fails, answered  # where the write lands is C11's subject; only the written-through shape is probed here
+            continue
+        if st_[0] == "rm":
+            try:
+                nima.remove_value(src, st_[1])
+            except Exception:  # noqa: BLE001
+                return fails, answered
+            continue
+        _p, keys, inner, exp = st_
+        try:
+            with guard.time_limit(10):
+                obj = src
+                for k in keys:
+                    obj = obj[k]
+                val = obj.value if isinstance(obj, Identifier) else obj
+                if inner is not None:
+                    leaf = val[inner]
+                    val = leaf.value if isinstance(leaf, Identifier) else leaf
+                v = getattr(val, "value", None)
+                got = ("value", v) if isinstance(v, int) and not isinstance(v, bool) else ("other", type(val).__name__)
+        except (nima.ResolutionError, KeyError) as e:
+            got = ("explicit-failure", type(e).__name__)
+        except guard.EvalTimeout:
+            got = ("timeout", "")
+        except Exception as e:  # noqa: BLE001
+            got = ("exc", f"{type(e).__name__}@{innermost_frame(e)}")
+        d = {"text": case["text"], "step": i, "steps": case["steps"], "got": list(got), "expected": exp}
+        if exp is None:
+            continue
+        if got[0] == "exc":
+            fails.append((f"internal-error:{got[1]}|{cls}", d))
+        elif got[0] == "timeout":
+            fails.append((f"unbounded-resolution|{cls}", d))
+        elif exp == "unbound":
+            if got[0] in ("value", "other"):
+                fails.append((f"resolved-unbound-name|{cls}", d))
+        elif got[0] == "value" and got[1] != exp:
+            fails.append((f"wrong-binding|{cls}", d))
+        elif got[0] == "value":
+            answered += 1
+        if fails:
+            break
+    return fails, answered
+
+
+
 def replay(case):
+    if case.get("kind") == "steps":
+        return judge_steps(case)[0]
     if case.get("kind") == "alias":
         return judge_alias_text(case)[0]
     if "raw" in case:
@@ -392,6 +501,13 @@ def run_shard(sh):
                 if k not in seen:
                     seen.add(k)
                     sh.fail(k, case, dd)
+            return
+        if n % 10 == 3:
+            case = tworoute_case(random.Random(n))
+            fails, answered = judge_steps(case)
+            sh.record(case, answered >= 2, case["cls"].split("|") + [f"answered:{min(answered, 3)}"])
+            for k, dd in fails[:1]:
+                sh.fail(k, case, dd)
             return
         g = S.Gen(n, **kw)
         d = g.doc()
